@@ -53,3 +53,27 @@ package actions
 //@             deliveries.completed_at$null(d) == old(deliveries.completed_at$null(d))
 //@   ensures no_swallowed_failure: [C09] dbfailed() && !old(dbfailed()) ==> err != nil
 //@   modifies T:deliveries:completed_at, T:deliveries:completed_at$null, S:dbfailed, E:uuid.UUID:, F:actions.AckDeliveries:actionBase.results, F:actions.ackDeliveriesResults:*, F:actions.actionTimer:*
+
+// C13: seek to time T on subscription S (resolved by id and/or name among live subscriptions), at instant now:
+// every retained delivery of S (expires_at >= now) published at or before T ends up acknowledged; every
+// retained delivery published after T ends up outstanding, and if it had been acknowledged it gets fresh
+// retention (now + message_ttl) and is immediately deliverable; nothing else changes.
+//@ func (*SeekSubscriptionToTime).Execute(a, ctx, tx) (err)
+//@   property C13
+//@   uses tables
+//@   requires a != nil && tx != nil
+//@   ensures target: err == nil ==> a.params.ID != nil && subscriptions.exists(deref(a.params.ID)) && subscriptions.deleted_at$null(deref(a.params.ID)) &&
+//@             (old(a.params.ID) != nil ==> deref(a.params.ID) == old(deref(a.params.ID))) &&
+//@             (old(a.params.Name) != "" ==> subscriptions.name(deref(a.params.ID)) == old(a.params.Name))
+//@   ensures seek: err == nil ==> exists now clock :: forall d Id ::
+//@             old(deliveries.exists(d)) && old(deliveries.subscription_id(d)) == deref(a.params.ID) && old(deliveries.expires_at(d)) >= now ==>
+//@               deliveries.exists(d) &&
+//@               (old(deliveries.published_at(d)) <= old(a.params.Time) ==> !deliveries.completed_at$null(d)) &&
+//@               (old(deliveries.published_at(d)) > old(a.params.Time) ==> deliveries.completed_at$null(d) &&
+//@                  (!old(deliveries.completed_at$null(d)) ==> deliveries.expires_at(d) == now + subscriptions.message_ttl(deref(a.params.ID)) && deliveries.attempt_at(d) <= now) &&
+//@                  (old(deliveries.completed_at$null(d)) ==> deliveries.expires_at(d) == old(deliveries.expires_at(d)) && deliveries.attempt_at(d) == old(deliveries.attempt_at(d))))
+//@   ensures others: err == nil ==> exists now clock :: forall d Id ::
+//@             !(old(deliveries.exists(d)) && old(deliveries.subscription_id(d)) == deref(a.params.ID) && old(deliveries.expires_at(d)) >= now) ==> delivery_unchanged(d)
+//@   ensures [C02] other_subscriptions: err == nil ==> (forall d Id :: old(deliveries.subscription_id(d)) != deref(a.params.ID) ==> delivery_unchanged(d))
+//@   ensures no_swallowed_failure: [C09] dbfailed() && !old(dbfailed()) ==> err != nil
+//@   modifies T:deliveries:completed_at, T:deliveries:completed_at$null, T:deliveries:expires_at, T:deliveries:attempt_at, S:dbfailed, F:actions.SeekSubscriptionToTime:*, F:actions.seekSubscriptionToTimeResults:*
